@@ -4,6 +4,6 @@ patch=$1; checks=$2; par=${3:-3}
 wt=$(mktemp -d /tmp/wts.XXXXXX); rmdir $wt
 git -C /repo worktree add -q --detach $wt HEAD || exit 2
 trap 'git -C /repo worktree remove --force '$wt' 2>/dev/null; git -C /repo worktree prune' EXIT
-git -C $wt apply $patch || { echo "$patch: does not apply"; exit 2; }
+git -C $wt apply $patch 2>/dev/null || git -C $wt apply -3 $patch >/dev/null 2>&1 || { echo "$patch: does not apply"; exit 2; }
 name=$(basename $patch)
 for c in $checks; do echo $c; done | xargs -P $par -I{} sh -c 'out=$(cd /verif && VERIF_REPO_SRC='$wt'/src VERIF_OUT_DIR='$wt'/.out-{} ./check {} 2>&1); rc=$?; case $rc in 1) r=VIOLATION;; 0) r=ok;; *) r="machinery-failure($rc)";; esac; echo "'$name' {} $r $(echo "$out" | grep -v KNOWN-FINDING | tail -1 | cut -c1-90)"; [ $rc -ne 0 ] && echo "$out" | grep -A1 "^VIOLATION\|MACHINERY" | head -3 | cut -c1-600'
